@@ -1,9 +1,177 @@
-"""C13 — Malformed rules fail closed (structural part: SH.err over validators, detection, run*, main)."""
-from rules import shared
+"""C13 — Malformed rules fail closed.
+
+Decided: (a) no Result produced anywhere reachable from main is swallowed (A5 result-flow: every
+producer's consumers are `?`, a return, an Err-keeping adaptor, a match whose Err arm only returns
+Err, or a listed exception) — this is the property's "first Err aborts the run" mechanism, including
+both error shapes of every thread / task join; (b) each malformation the property names has an
+Err-producing branch in the responsible validator, identified by its predicate or by the fallible
+callee whose Err is propagated (18 sites); (c) the panic census of C04 covers the same bodies
+("without crashing").
+Not decided: which attribute VALUES count as malformed beyond these predicates (value-level).
+"""
+import re
+
+from engine.cfg import cfg_of
+from engine.expr import render, walk, find_calls
+from engine.facts import callee_name, callee_matches
+from engine import prov as P
+from engine.resultflow import is_bad
+from rules import shared, util
+from rules.C12 import only_err_from
+
+# (validator, producer callee regex, what is malformed)
+PROPAGATED = [
+    ("keep-sorted", r"^regex::Regex::new$", "an uncompilable keep-sorted-pattern"),
+    ("keep-sorted", r"SortFormat as std::str::FromStr>::from_str$", "an unknown keep-sorted-format"),
+    ("keep-sorted", r"<impl str>::parse$", "a non-numeric key under numeric sort"),
+    ("keep-sorted", r"keep_sorted::SortFormat::cmp$", "a failing key comparison"),
+    ("keep-unique", r"^regex::Regex::new$", "an uncompilable keep-unique regex"),
+    ("line-pattern", r"^regex::Regex::new$", "an uncompilable line-pattern"),
+    ("line-count", r"line_count::parse_constraint$", "a bad line-count expression"),
+    ("line-count", r"<impl str>::parse$", "a bad line-count number"),
+    ("affects", r"affects::parse_affects_attribute$", "a bad affects reference"),
+    ("affects", r"<impl str>::split_once$", "an affects reference without a colon"),
+    ("check-lua", r"^std::fs::read_to_string$", "a missing / unreadable Lua script"),
+    ("check-lua", r"^mlua::Chunk::<'_>::exec_async$|^mlua::Chunk::.*::exec", "a Lua syntax / load-time error"),
+    ("check-lua", r"^mlua::Table::get$", "a script without a global `validate`"),
+    ("check-lua", r"^mlua::Function::call_async$|^mlua::Function::call$", "a Lua runtime error"),
+    ("check-lua", r"^regex::Regex::new$", "an uncompilable check-lua-pattern"),
+    ("check-ai", r"^regex::Regex::new$", "an uncompilable check-ai-pattern"),
+    ("check-ai", r"^async_openai::Chat::.*::create$", "a failing AI request"),
+]
+ANY_VALIDATOR = [
+    (r"blocks::BlockSeverity as std::str::FromStr>::from_str$", "an unknown severity"),
+]
+GOOD = ("try", "returned", "adaptor", "match-ok")
+
+
+def require_propagated(ctx, out, name, rx, what, bodies):
+    found = 0
+    for b in bodies:
+        if b.is_derive() or b.promoted is not None:
+            continue
+        for bi, t, paths in ctx.rf.producers(b):
+            if not callee_matches(t, rx):
+                continue
+            for p, recs in ctx.rf.classify(b, bi, t, paths):
+                classes = {r["class"] for r in recs}
+                if classes and not any(is_bad(c) for c in classes) and any(c.startswith(GOOD) for c in classes):
+                    found += 1
+    # futures: the Result appears at the poll of the future the call returned
+    if not found:
+        for b in bodies:
+            if b.is_derive() or b.promoted is not None:
+                continue
+            E = ctx.expr(b)
+            for bi, t, paths in ctx.rf.producers(b):
+                nm = callee_name(t)
+                if not re.search(r"Future>?::poll$|::\{closure#\d+\}$", nm) or not t["args"]:
+                    continue
+                e = E.operand(t["args"][0])
+                if find_calls(e, rx) or re.search(rx.replace("$", "") , nm):
+                    for p, recs in ctx.rf.classify(b, bi, t, paths):
+                        classes = {r["class"] for r in recs}
+                        if classes and not any(is_bad(c) for c in classes) and any(c.startswith(GOOD) for c in classes):
+                            found += 1
+    # Option-producing callee handled through anyhow's Context (split_once(..).context(..)?)
+    if not found and rx.endswith("split_once$"):
+        for b in bodies:
+            E = ctx.expr(b)
+            for bi, t in b.calls():
+                if callee_matches(t, r"anyhow::Context.*::(context|with_context)$|impl anyhow::Context<T, .*> for std::option::Option<T>>::(context|with_context)$"):
+                    e = E.operand(t["args"][0])
+                    if find_calls(e, rx):
+                        for p, recs in ctx.rf.classify(b, bi, t, [()]):
+                            classes = {r["class"] for r in recs}
+                            if classes and not any(is_bad(c) for c in classes):
+                                found += 1
+    if not found:
+        out.viol("C13.sites", "C13.sites|%s|%s" % (name, rx), "-",
+                 "in the `%s` validator no call matching /%s/ was found whose Err is propagated: %s would not make the run fail" % (name, rx, what))
+    return found
+
+
+def explicit_err(ctx, out, name, body, guard_rx, polarity_true, what, key):
+    """An `Err(..)` built under a guard whose rendered predicate matches guard_rx."""
+    for b in body:
+        for bi, j, s in b.assigns():
+            rv = s["rv"]
+            if rv["k"] == "agg" and rv.get("variant") == "Err" and rv.get("path") == "std::result::Result":
+                for br, vals, e in util.guards(ctx, b, bi):
+                    txt = render(e, 800)
+                    if re.search(guard_rx, txt):
+                        if (polarity_true and 0 not in vals) or (not polarity_true and vals == {0}):
+                            return 1
+    out.viol("C13.sites", "C13.sites|%s|%s" % (name, key), "-",
+             "in the `%s` validator no `Err` is produced under %s: %s would be accepted silently" % (name, what, what))
+    return 0
 
 
 def run(ctx, out, tier):
     bodies = ctx.reachable_bodies()
     shared.sh_err(ctx, out, bodies, floor=300)
+    n = 0
+    for name, rx, what in PROPAGATED:
+        region = ctx.validator_bodies(name)
+        n += 1 if require_propagated(ctx, out, name, rx, what, region) else 0
+    for rx, what in ANY_VALIDATOR:
+        n += 1 if require_propagated(ctx, out, "*", rx, what, bodies) else 0
+    # explicit Err exits
+    n += explicit_err(ctx, out, "keep-sorted", ctx.validator_bodies("keep-sorted"), r"'asc'|'desc'", True, "a direction other than asc / desc", "direction")
+    n += explicit_err(ctx, out, "check-lua", ctx.validator_bodies("check-lua"), r"^str::is_empty\(str::trim\(", True, "an empty script path", "empty-path")
+    n += explicit_err(ctx, out, "check-ai", ctx.validator_bodies("check-ai"), r"^str::is_empty\(str::trim\(", True, "an empty condition", "empty-condition")
+    n += explicit_err(ctx, out, "check-ai", ctx.validator_bodies("check-ai") + [b for b in bodies if "check_ai" in b.id], r"^str::is_empty\(.*expose_secret", True, "a missing API key", "empty-key")
+    n += explicit_err(ctx, out, "line-count", ctx.validator_bodies("line-count"), r"^str::is_empty\(str::trim\(", True, "a comparator without a number", "missing-number")
+    # line-count: no comparator at all -> Err (the else of the prefix chain)
+    pcs = [b for b in ctx.validator_bodies("line-count") if b.id.endswith("parse_constraint")]
+    ok = False
+    for b in pcs:
+        for bi, j, s in b.assigns():
+            rv = s["rv"]
+            if rv["k"] == "agg" and rv.get("variant") == "Err":
+                gs = util.guards(ctx, b, bi)
+                sp = [(vals, e) for br, vals, e in gs if e[0] == "discr" and find_calls(e, r"<impl str>::strip_prefix$")]
+                if len(sp) >= 5 and all(1 not in vals for vals, e in sp):
+                    ok = True
+    if ok:
+        n += 1
+    else:
+        out.viol("C13.sites", "C13.sites|line-count|missing-comparator", "-", "no `Err` for a line-count expression that starts with none of the five comparators")
+    # the severity of a block is evaluated (and its Err propagated) at every diagnostic
+    from rules.C10 import violation_sites
+    sev = 0
+    for vname in ctx.roles()["validators"]:
+        for b, t, callers in violation_sites(ctx, vname):
+            labs = ctx.prov.read_operand(b, t["args"][3])
+            if P.has_call(labs, r"blocks::Block::severity$") and P.has_call(labs, r"Try>::branch$|ops::Try::branch$") or P.has_call(labs, r"blocks::Block::severity$"):
+                sev += 1
+    if sev >= 7:
+        n += 1
+    else:
+        out.viol("C13.sites", "C13.sites|severity-at-diagnostic", "-", "only %d of 7 diagnostics evaluate `Block::severity()?`: an unknown severity on a violating block would not fail the run" % sev)
+    # numeric sort: the ordering comes from the parsed numbers on every path (no shortcut that skips parsing)
+    from rules.C06 import check_cmp_results
+    if check_cmp_results(ctx, out, "C13.numeric") >= 2:
+        n += 1
+    out.inst("C13.sites", n, 26, ["%s: %s" % (a, w) for a, r, w in PROPAGATED[:6]], note="%d propagated fallible calls + 7 explicit Err exits" % len(PROPAGATED))
+
+    # ------------------------------------------------------------------ C13.join
+    j = 0
+    for b in bodies:
+        for bi, t, paths in ctx.rf.producers(b):
+            if callee_matches(t, r"thread::JoinHandle::<T>::join$|JoinSet::<T>::join_next|Runtime::block_on$"):
+                for p, recs in ctx.rf.classify(b, bi, t, paths):
+                    classes = {r["class"] for r in recs}
+                    if not any(is_bad(c) for c in classes):
+                        j += 1
+    out.inst("C13.join", j, 8, note="join / join_next / block_on results: every nested Result level is propagated")
     shared.sh_main(ctx, out)
-    return {"explanation": "wip"}
+    return meta()
+
+
+def meta():
+    return {
+        "explanation": "Decides the fail-closed mechanism structurally: result-flow over every Result-producing call reachable from main (no swallowed Err, including both levels of every join), presence of the 25 Err-producing branches / propagated fallible calls that the named malformations rely on (identified by predicate or callee, not by text), order of the steps in main. Which concrete attribute values are malformed beyond these predicates is value-level and not decided.",
+        "undecided": "value-level definition of 'malformed' (e.g. surrounding spaces in a direction); dependency behaviour behind each fallible call.",
+        "assumptions": [],
+    }
